@@ -3,7 +3,7 @@
    satisfiable and record concrete behaviour of the faithful model. *)
 From Coq Require Import ZArith List Bool Lia Sorted Field.
 From IBL.lib Require Import PyInt.
-From IBL.C20 Require Import Model Proofs FloatRank RankForms.
+From IBL.C20 Require Import Model Proofs FloatRank RankForms RankSweep.
 From Coq Require Import Reals.
 From Flocq Require Import Core.
 Import ListNotations.
